@@ -383,6 +383,8 @@ type Terminal struct {
 	tui                tui.Renderer
 	ttyin              *os.File
 	executing          *util.AtomicBool
+	execFiles          []string
+	execFilesMutex     sync.Mutex
 	termSize           tui.TermSize
 	lastAction         actionType
 	lastKey            string
@@ -4060,6 +4062,9 @@ func (t *Terminal) executeCommand(template string, forcePlus bool, background bo
 		return line
 	}
 	command, tempFiles := t.replacePlaceholder(template, forcePlus, string(t.input), list)
+	t.execFilesMutex.Lock()
+	t.execFiles = tempFiles
+	t.execFilesMutex.Unlock()
 	cmd := t.executor.ExecCommand(command, false)
 	cmd.Env = t.environ()
 	if len(info) > 0 {
@@ -4153,7 +4158,10 @@ func (t *Terminal) executeCommand(template string, forcePlus bool, background bo
 		t.uiMutex.Unlock()
 	}
 	t.executing.Set(false)
+	t.execFilesMutex.Lock()
 	removeFiles(tempFiles)
+	t.execFiles = nil
+	t.execFilesMutex.Unlock()
 	return line
 }
 
@@ -4441,6 +4449,14 @@ func (t *Terminal) Loop() error {
 			}
 		}()
 	}
+
+	// Make sure that the temporary files of a command being executed do not
+	// outlive fzf. The process may exit before executeCommand removes them.
+	util.AtExit(func() {
+		t.execFilesMutex.Lock()
+		removeFiles(t.execFiles)
+		t.execFilesMutex.Unlock()
+	})
 
 	if t.hasPreviewer() {
 		// Make sure that the preview command and its temporary files do not
